@@ -353,14 +353,14 @@ pub fn def() -> PropertyDef {
 		rule: "Generated certificates / CSRs / CRLs (names of up to 6 attributes; all key algorithms): (a) the same call twice with shared keys and again with rebuilt keys and issuer; (b) after a generated history of 0..6 other generation calls, some sharing the same keys and issuer; (c) 2..16 threads x 1..6 iterations sharing one &KeyPair and one issuer &Certificate; (d) batches evaluated in three fresh child processes (different hash-map seeds). Oracle: identical to-be-signed byte range (cut out by the harness reader), identical complete output for Ed25519 and RSA PKCS#1 v1.5, params() equal to the input, shared key and issuer unchanged. Non-trivial = name with >= 3 attributes, or >= 4 threads, or non-empty prefix, or a cross-process batch.",
 		assumptions: vec!["thread interleavings are sampled by the OS scheduler, not enumerated", "the harness reader finds the signed byte range"],
 		subs: vec![
-			prop_sub("repeat", 5_000, 300_000, || art(false), check_repeat),
-			prop_sub("history", 2_500, 150_000, || {
+			prop_sub("repeat", 15_000, 300_000, || art(false), check_repeat),
+			prop_sub("history", 7_500, 150_000, || {
 				(art(true), proptest::collection::vec(art(true), 0..6)).prop_map(|(target, prefix)| HistoryCase { target, prefix }).boxed()
 			}, check_history),
-			prop_sub("threads", 2_000, 60_000, || {
+			prop_sub("threads", 6_000, 60_000, || {
 				(art(true), any::<u8>(), any::<u8>(), proptest::collection::vec(art(true), 0..3)).prop_map(|(target, threads, iters, others)| ThreadCase { target, threads, iters, others }).boxed()
 			}, check_threads),
-			prop_sub("processes", 24, 600, || proptest::collection::vec(art(true), 20..40).prop_map(|arts| ProcessBatch { arts }).boxed(), check_processes),
+			prop_sub("processes", 72, 600, || proptest::collection::vec(art(true), 20..40).prop_map(|arts| ProcessBatch { arts }).boxed(), check_processes),
 		],
 	}
 }
